@@ -56,7 +56,8 @@ MixedCases == {[r |-> r, f |-> f, a |-> <<>>] : r \in MixedStrs, f \in {"len", "
          \cup {[r |-> r, f |-> "split", a |-> <<c>>] : r \in MixedStrs, c \in {C(<<"a">>), C(<<"$e$">>), C(<<" ">>)}}
          \cup {[r |-> r, f |-> "repeat", a |-> <<I(2)>>] : r \in MixedStrs}
 ContainsCases(n, m) == {[r |-> r, f |-> "contains", a |-> <<c>>] : r \in Strs(n), c \in Strs(m)}
-NumStrs == {C(<<"1", "2">>), C(<<"-", "5">>), C(<<"1", ".", "5">>), C(<<"a", "b">>), C(<<>>), C(<<"0">>), C(<<"+", "7">>), C(<<"1", " ">>)}
+NumStrs == {C(<<"-">>), C(<<"+">>), C(<<".">>), C(<<"-", ".">>), C(<<"1", "-">>),
+            C(<<"1", "2">>), C(<<"-", "5">>), C(<<"1", ".", "5">>), C(<<"a", "b">>), C(<<>>), C(<<"0">>), C(<<"+", "7">>), C(<<"1", " ">>)}
 DecArgs == {<<>>, <<C(<<",">>)>>, <<C(<<>>)>>} \cup {<<C(<<".">>), I(d)>> : d \in -1..3} \cup {<<C(<<"$u$">>), I(1)>>}
 DecCases == {[r |-> r, f |-> "decimal", a |-> a] : r \in NumStrs \cup {I(0), I(12), I(-5), IMax(0)}, a \in DecArgs}
 
